@@ -335,6 +335,18 @@ def map_programs_c11(ctx, rng):
                                 weights=[("Load", 6), ("Store", 6), ("LoadOrStore", 6), ("LoadAndStore", 4), ("LoadOrCompute", 10), ("Compute", 12), ("LoadAndDelete", 5), ("Delete", 5), ("Size", 1)])
             p["ops"] = [{"op": "BulkStore", "lo": 1, "hi": 130}] + p["ops"]
             progs.append(p)
+    # deterministically at the threshold: ballast of exactly threshold+1 entries (no grow yet: 72+1 for Map, 120+1 for MapOf), one chain filled
+    # exactly (3 / 5 slots), then every kind of insert of an absent key into that chain must first grow the table
+    for (ballast, fill) in ((73, 3), (121, 5)):
+        for ins in ("Store", "LoadOrStore", "LoadAndStore", "LoadOrCompute", "Compute:set", "Compute:setifabsent", "Compute:toggle", "Compute:delret", "LoadAndDelete"):
+            keys = ["k%d" % (j + 1) for j in range(fill + 2)]
+            ops = [{"op": "BulkStore", "lo": 1, "hi": ballast}] + [{"op": "Store", "k": k, "v": "v%d" % (j + 1)} for j, k in enumerate(keys[:fill])]
+            o, _, fn = ins.partition(":")
+            ops.append({"op": o, "k": keys[fill], "v": "v90", "fn": fn})
+            ops.append({"op": o, "k": keys[fill + 1], "v": "v91", "fn": fn})
+            ops += [{"op": "Load", "k": k} for k in keys] + [{"op": "Size"}, {"op": "BulkLoad", "lo": 1, "hi": ballast}]
+            progs.append({"map": {"kind": "Map", "keytype": "", "valtype": ""}, "ops": ops,
+                          "pin": {"keys": {k: [5, j + 1] for j, k in enumerate(keys)}, "avoid": [5]}, "note": "ballast %d, full chain %d, then %s" % (ballast, fill, ins)})
     # bulk: cross every grow and shrink threshold on the way up and down, with scenario keys interleaved
     N = 3000 if not ctx.thorough else 40000
     for rep in range(2 if not ctx.thorough else 6):
